@@ -38,6 +38,10 @@ pub enum Case {
     /// `24 * wrap`, offset 0. Either side of the wrap is acceptable; what is asserted is a valid time within a
     /// minute of midnight and no panic.
     WrapEdge { mode: u8, prayer: u8, wrap: i8, ulps: i8 },
+    /// an hour value within a few ulps of minute + 30 s (kind 0) or minute + 1 s (kind 1), i.e. at a rounding threshold
+    /// itself (some of these make the library's seconds exactly 30.0 / 1.0). The unrounded h:m:s is what the conversion
+    /// itself reports under RoundSeconds::None for the same hour value; the rounded result must follow from it.
+    Threshold { mode: u8, prayer: u8, minute: u16, kind: u8, ulps: i8 },
 }
 
 const MODES: [Mode; 4] = [Mode::None, Mode::Normal, Mode::Special, Mode::Aggressive];
@@ -140,7 +144,8 @@ impl Prop for C11 {
         let spec = prop_oneof![1 => plain, 1 => super::c07::full_spec()];
         let e2e = (gen::site(62.0, 6.0), spec, gen::date()).prop_map(|(site, spec, date)| Case::EndToEnd { site, spec, date });
         let edge = (0u8..4, 1u8..7, -2i8..=3, -6i8..=6).prop_map(|(mode, prayer, wrap, ulps)| Case::WrapEdge { mode, prayer, wrap, ulps });
-        prop_oneof![20 => hook, 30 => e2e, 1 => edge].boxed()
+        let thr = (1u8..4, 1u8..7, 0u16..1440, 0u8..2, -3i8..=3).prop_map(|(mode, prayer, minute, kind, ulps)| Case::Threshold { mode, prayer, minute, kind, ulps });
+        prop_oneof![20 => hook, 30 => e2e, 1 => edge, 4 => thr].boxed()
     }
     fn check(&self, c: &Case, st: &mut Stats) -> Result<(), Failure> {
         match c {
@@ -185,6 +190,38 @@ impl Prop for C11 {
                 }
                 st.nontrivial(c);
                 st.class("hook_wrap_edge_case");
+                Ok(())
+            }
+            Case::Threshold { mode, prayer, minute, kind, ulps } => {
+                st.eval();
+                let pr = PRAYERS[*prayer as usize];
+                let secs_thr = if *kind == 0 { 30.0 } else { 1.0 };
+                let h0 = (*minute as f64 + secs_thr / 60.0) / 60.0;
+                let hour = f64::from_bits((h0.to_bits() as i64 + *ulps as i64) as u64);
+                let conv = |m: u8| {
+                    let mut spec = ParamSpec::plain(5);
+                    spec.rounding = m;
+                    let params = spec.build();
+                    catch(|| verif_hooks::hour_to_time(&params, pr, hour))
+                };
+                let (Ok(base), Ok(got)) = (conv(0), conv(*mode)) else {
+                    return Err(Failure::new("rounding:hook:panic:threshold", "a clock time", format!("panic for hour value {:?}", hour)));
+                };
+                let want = round(MODES[*mode as usize], *prayer as usize, base.hour(), base.minute(), base.second());
+                let g = (got.hour(), got.minute(), got.second());
+                if g != want {
+                    return Err(Failure::new(
+                        format!("rounding:hook:threshold:{}:{}", gen::ROUNDING_NAMES[*mode as usize], gen::PRAYER_NAMES[*prayer as usize]),
+                        format!("{:02}:{:02}:{:02} under {} rounding (the conversion itself reports {} unrounded for this hour value)", want.0, want.1, want.2, gen::ROUNDING_NAMES[*mode as usize], base),
+                        format!("{} (hour value {:?})", got, hour),
+                    ));
+                }
+                if base.second() == 30 || base.second() == 1 {
+                    st.class("hook_threshold_case_on_the_upper_side");
+                } else {
+                    st.class("hook_threshold_case_on_the_lower_side");
+                }
+                st.nontrivial(c);
                 Ok(())
             }
             Case::EndToEnd { site, spec, date } => {
